@@ -284,23 +284,61 @@ def rule_rekey_shape(rep, m, cname):
 
 
 # ---------------------------------------------------------------------------
+def _unit_helpers(m):
+    """functions with internal linkage defined in the PRNG source file: calls to
+    them are followed (their bodies are part of the caller for these rules)"""
+    prng_file = m.funcs["ascon_random_fetch"].srcfile
+    return {g.name for g in m.defined() if g.srcfile == prng_file and g.internal}
+
+
+def reach_calls(m, f, target, helpers, depth=0):
+    """calls to `target` made by f directly or through helper functions of the
+    unit: [(call site in f, operands expressed as values of f or None)]"""
+    out = []
+    if depth > 6:
+        raise repo.AnalysisBroken("helper call depth exceeded in " + f.name)
+    for c in f.calls():
+        if c.callee == target:
+            out.append((c, list(c.ops)))
+        elif c.callee in helpers:
+            g = m.funcs[c.callee]
+            for (_site, ops) in reach_calls(m, g, target, helpers, depth + 1):
+                mapped = []
+                for o in ops:
+                    if o in g.params:
+                        mapped.append(c.ops[g.params.index(o)])
+                    elif o is not None and ir.const_int(o) is not None:
+                        mapped.append(o)
+                    else:
+                        mapped.append(None)
+                out.append((c, mapped))
+    return out
+
+
 def rule_inputs(rep, m, cname):
     rid = "C15.D2"
     rep.rule(rid, "system seed and fed data are absorbed whole; no other data source in the PRNG call tree")
+    helpers = _unit_helpers(m)
     for name in ("ascon_random_init", "ascon_random_reseed", "ascon_random"):
         f = m.funcs.get(name)
         if f is None or f.decl:
             raise repo.AnalysisBroken("%s not defined" % name)
         R = ptr.resolver(f)
-        gen = [c for c in f.calls("ascon_trng_generate")]
-        ab = [c for c in f.calls("ascon_xof_absorb")]
+        gen = reach_calls(m, f, "ascon_trng_generate", helpers)
+        ab = reach_calls(m, f, "ascon_xof_absorb", helpers)
         if len(gen) != 1 or len(ab) != 1:
-            rep.violation(rid, name + ":shape", f.src, "%s has %d entropy draws and %d absorbs" % (name, len(gen), len(ab)),
-                          config=cname)
+            if not gen or not ab:
+                rep.violation(rid, name + ":shape", f.src, "%s has %d entropy draws and %d absorbs" % (name, len(gen), len(ab)),
+                              config=cname)
+            else:
+                rep.unproved_item(rid, "%s (%s): %d entropy draws and %d absorbs; matching not decided" % (name, cname, len(gen), len(ab)))
             continue
-        g, a = gen[0], ab[0]
-        rg, ra = R.resolve(g.ops[0]), R.resolve(a.ops[1])
-        ng, na = ir.const_int(g.ops[1]), ir.const_int(a.ops[2])
+        (g, gops), (a, aops) = gen[0], ab[0]
+        if gops[0] is None or aops[1] is None or gops[1] is None or aops[2] is None:
+            rep.unproved_item(rid, "%s (%s): seed buffer or length is computed inside a helper" % (name, cname))
+            continue
+        rg, ra = R.resolve(gops[0]), R.resolve(aops[1])
+        ng, na = ir.const_int(gops[1]), ir.const_int(aops[2])
         if rg.single() != ra.single() or rg.offset != ra.offset or rg.single() is None:
             rep.violation(rid, name + ":buffer", a.where(), "%s absorbs a different buffer than the one filled by "
                           "ascon_trng_generate" % name, config=cname)
@@ -312,13 +350,15 @@ def rule_inputs(rep, m, cname):
         else:
             rep.instance(rid, 1, {"config": cname, "function": name, "seed_bytes": ng})
     f = m.funcs.get("ascon_random_feed")
-    ab = [c for c in f.calls("ascon_xof_absorb")]
-    ok = len(ab) == 1 and ab[0].ops[1] == f.params[f.param_index("entropy")] and ab[0].ops[2] == f.params[f.param_index("size")]
-    if not ok:
+    ab = reach_calls(m, f, "ascon_xof_absorb", helpers)
+    pe, ps = f.params[f.param_index("entropy")], f.params[f.param_index("size")]
+    if any(ops[1] == pe and ops[2] == ps for _c, ops in ab):
+        rep.instance(rid, 1, {"config": cname, "function": "ascon_random_feed"})
+    elif any(ops[1] is None or ops[2] is None for _c, ops in ab):
+        rep.unproved_item(rid, "ascon_random_feed (%s): absorbed buffer or length is computed inside a helper" % cname)
+    else:
         rep.violation(rid, "ascon_random_feed:absorb", f.src, "ascon_random_feed does not absorb (entropy, size) unchanged",
                       config=cname)
-    else:
-        rep.instance(rid, 1, {"config": cname, "function": "ascon_random_feed"})
     # callee census of the PRNG unit
     prng_file = m.funcs["ascon_random_fetch"].srcfile
     for g in m.defined():
@@ -327,7 +367,7 @@ def rule_inputs(rep, m, cname):
         for c in g.calls():
             if c.callee is None:
                 continue     # storage callbacks
-            if c.callee not in ALLOWED_CALLEES:
+            if c.callee not in ALLOWED_CALLEES and c.callee not in helpers:
                 rep.violation(rid, "%s:callee:%s" % (g.name, c.callee), c.where(),
                               "%s calls %s, which is not one of the sponge / system-entropy primitives the "
                               "generator's output may depend on" % (g.name, c.callee), config=cname)
@@ -356,7 +396,7 @@ def rule_reseed_limit(rep, m, cname):
         if c is None or ld is None or ld.op != "load":
             continue
         pv = R.resolve(ld.ops[0])
-        if pv.single() == ("param", sp) and pv.offset == 48:
+        if pv.single() == ("param", sp) and pv.offset == _counter_offset(m):
             guard = (i, c)
     if guard is None or not rs:
         rep.violation(rid, "fetch:no-guard", f.src, "ascon_random_fetch has no reseed guard on the byte counter", config=cname)
@@ -381,27 +421,55 @@ def rule_reseed_limit(rep, m, cname):
                       "lead to ascon_random_reseed", config=cname)
     else:
         rep.instance(rid, 1)
-    # counter is reset to 0 only by init / reseed / free
-    for g in m.defined():
+    # the produced-bytes counter is reset only where fresh system entropy is drawn: in every function with
+    # external linkage, a reset (a store of 0 to the counter, made directly or inside a helper of the unit) is
+    # dominated or post-dominated by an entropy draw of that function; ascon_random_free destroys the object
+    helpers = _unit_helpers(m)
+    coff = _counter_offset(m)
+
+    def resets(g, depth=0):
         k = _state_param(g)
+        out = []
         if k is None:
-            continue
+            return out
         Rg = ptr.resolver(g)
         for i in g.insts():
             if i.op == "store":
                 pv = Rg.resolve(i.ops[1])
-                if pv.single() == ("param", g.params[k]) and pv.offset == 48 and ir.const_int(i.ops[0]) == 0:
-                    if g.name not in ("ascon_random_init", "ascon_random_reseed", "ascon_random_free"):
-                        rep.violation(rid, "%s:counter-reset" % g.name, i.where(),
-                                      "%s resets the produced-bytes counter without drawing fresh entropy" % g.name, config=cname)
-                    else:
-                        rep.instance(rid, 1)
+                if pv.single() == ("param", g.params[k]) and pv.offset == coff and ir.const_int(i.ops[0]) == 0:
+                    out.append(i)
+            elif i.op == "call" and i.callee in helpers and depth < 6:
+                h = m.funcs[i.callee]
+                hk = _state_param(h)
+                if hk is not None and resets(h, depth + 1):
+                    pv = Rg.resolve(i.ops[hk])
+                    if pv.single() == ("param", g.params[k]) and pv.offset == 0:
+                        out.append(i)
+        return out
+
+    for g in m.defined():
+        if g.internal or _state_param(g) is None or g.name == "ascon_random_free":
+            continue
+        rs_sites = resets(g)
+        if not rs_sites:
+            continue
+        draws = [c for c, _ops in reach_calls(m, g, "ascon_trng_generate", helpers)]
+        pdom = g.postdominators()
+        for i in rs_sites:
+            ok = any(g.dominates(d, i) or d.block.name in pdom.get(i.block.name, ()) or
+                     (d.block.name == i.block.name) for d in draws)
+            if ok:
+                rep.instance(rid, 1, {"config": cname, "function": g.name, "reset": i.where()})
+            else:
+                rep.violation(rid, "%s:counter-reset" % g.name, i.where(),
+                              "%s resets the produced-bytes counter on a path that draws no fresh system entropy, so the "
+                              "16384-byte reseed limit no longer bounds the output of one seed" % g.name, config=cname)
     # the counter is advanced after the squeeze
     adv = False
     for i in f.insts():
         if i.op == "store":
             pv = R.resolve(i.ops[1])
-            if pv.single() == ("param", sp) and pv.offset == 48 and f.dominates(sq[0], i):
+            if pv.single() == ("param", sp) and pv.offset == _counter_offset(m) and f.dominates(sq[0], i):
                 adv = True
     if not adv:
         rep.violation(rid, "fetch:counter-advance", f.src, "ascon_random_fetch does not advance the produced-bytes counter after "
@@ -411,6 +479,15 @@ def rule_reseed_limit(rep, m, cname):
 
 
 # ---------------------------------------------------------------------------
+def _counter_offset(m):
+    t = m.ditype_by_typedef("ascon_random_state_t")
+    if t:
+        for mem in t["members"]:
+            if mem[0] == "counter":
+                return mem[1]
+    raise repo.AnalysisBroken("member `counter` of ascon_random_state_t not found in the debug info")
+
+
 def return_values(f):
     """-> list of (description, value set or mapping, where)"""
     out = []
